@@ -130,7 +130,7 @@ def handle (op : String) (j : Json) : Except String Json := do
     let lexOk := toks == some (toksDoc d)
     let built := (build BState.init (toksDoc d)).bind BState.finish
     let buildOk := match built with | some r => Doc.beq r (rawDoc d) | none => false
-    let resOk := match resolve [] (rawDoc d).root with | some r => Elem.beq r (canonElem d.root) | none => false
+    let resOk := match resolve [] (rawDoc d).root with | some r => Elem.beq r (canonElem [] true d.root) | none => false
     let parseOk := match parse out with | some r => Doc.beq r (canonDoc d) | none => false
     let idem := (serialize ll true [] true (canonDoc d)) == out
     pure (Json.mkObj [("wf", wfDoc d), ("lex", lexOk), ("build", buildOk), ("resolve", resOk),
